@@ -1,4 +1,5 @@
 import KojenVerif.Lemmas.Uml
+import KojenVerif.Lemmas.UmlInc
 /-
   C19 — UML class generation is complete, namespace-faithful and self-consistent.
 
@@ -14,6 +15,11 @@ import KojenVerif.Lemmas.Uml
   the package namespace, without them (or without a package) at the top (`C19_folder_chain`);
   the wrapper opens and closes exactly the namespace's components, in order
   (`C19_namespace_wrapper`); distinct names give distinct files (`C19_distinct_names`).
+  The include lines of a C++ header (`Model/UmlInc`, after the fixes 64466e3 / f2d600b, compared with
+  `LanguageCPP.GetNotForwardDeclarableHeaderIncludes` on every class of every generated diagram): the
+  own namespace is removed as a leading qualification only (`C19_own_namespace_prefix_only`), and the path
+  written for a type is the place of that type's header, seen from the including file's folder or from
+  the output root (`C19_include_entry`, `C19_includes_namespace_faithful`).
   Decided on the real output only (not modelled): declaration / definition pairing, overrides of
   realised pure-virtual interfaces, acceptance by g++ (partial; see the check).
 -/
@@ -109,6 +115,30 @@ theorem C19_namespace_wrapper (comps : List Str) (hne : comps ≠ []) (hc : ∀ 
 theorem C19_distinct_names (dir a b ext : Str) (h : dir ++ (a ++ ext) = dir ++ (b ++ ext)) : a = b :=
   List.append_cancel_right (List.append_cancel_left h)
 
+/-- **Own namespace: a leading qualification only.** -/
+theorem C19_own_namespace_prefix_only (f ns : Str) :
+    stripOwn f ns = f ∨ (ns ≠ [] ∧ f = ns ++ S "::" ++ stripOwn f ns) := stripOwn_prefix_only f ns
+
+/-- **One include entry**: for a holder in namespace `hns` and a type `tns::name` (components free of ':'),
+    the path is the folder chain of the components that remain after the holder's own namespace has been
+    removed from the front, the file is `name.h`. -/
+theorem C19_include_entry (hns tns : List Str) (name : Str)
+    (hh : ∀ c ∈ hns, NoChar 58 c ∧ c ≠ []) (ht : ∀ c ∈ tns ++ [name], NoChar 58 c) :
+    incEntry (joinNs hns) (joinNs (tns ++ [name])) = (joinDirs ((relComps hns tns name).dropLast), name) :=
+  incEntry_comps hns tns name hh ht
+
+/-- **Includes are namespace-faithful.**  With namespace folders on, the include written for a type names the
+    file the generator produces for that type (`C19_folder_chain`): relative to the including header's own
+    folder when the type lies in (a sub-namespace of) the holder's namespace, relative to the output root
+    otherwise — for all namespaces and names, in particular for package names that end or begin alike and for
+    packages named after one of their classes. -/
+theorem C19_includes_namespace_faithful (hns tns : List Str) (name : Str)
+    (hh : ∀ c ∈ hns, NoChar 58 c ∧ c ≠ []) (ht : ∀ c ∈ tns, c ≠ [] ∧ NoChar 47 c ∧ NoChar 58 c) (hn : NoChar 58 name) :
+    placed true (joinNs tns) (name ++ S ".h") =
+      (if inOwn hns tns name then joinDirs hns else []) ++
+        (incEntry (joinNs hns) (joinNs (tns ++ [name]))).1 ++ (incEntry (joinNs hns) (joinNs (tns ++ [name]))).2 ++ S ".h" :=
+  include_is_placement hns tns name hh ht hn
+
 /-! non-vacuity: the shipped diagram's shape -/
 section Example
 def exElems : List Elem :=
@@ -120,6 +150,10 @@ def exElems : List Elem :=
 example : fileList Generated.umlTemplatesCPP true (S "D") exElems [S "XRel", S "XTypes::Inner", []] =
     [S "XRel/CChildClass.h", S "XRel/CChildClass.cpp", S "XRel/ISuperClass.h", S "XTypes/Inner/EColor.h", S "sPacked.h"] := by decide
 example : nsBegin (S "XTypes::Inner") = S "namespace XTypes {  namespace Inner { " ∧ nsEnd (S "XTypes::Inner") = S "}  } " := by decide
+/-! the three shapes the fixes are about: names that end alike, a package named after its class, a sub-namespace -/
+example : includes true (S "Types") [S "Types::Local", S "XTypes::sMyStruct", S "sMyStructs::sMyStruct", S "Types::Sub::Deep"]
+      [S "Local", S "sMyStruct", S "Deep"] =
+    S "#include \"Local.h\"\n#include \"XTypes/sMyStruct.h\"\n#include \"sMyStructs/sMyStruct.h\"\n#include \"Sub/Deep.h\"\n" := by decide
 end Example
 
 end KojenVerif.C19
